@@ -10,6 +10,7 @@ import numpy as np
 from .. import copc as C
 from .. import sched as SC
 
+THEOREMS_X = ["X_measure", "xinv_init", "xinv_step", "xinv_run", "X_terminal", "X_bound", "C16_executor"]
 THEOREMS = ["C16_measure", "inv_init", "inv_step", "inv_run", "C16_terminal", "C16_joined", "C16_result", "C16_bound",
             "C16_schedule_independent", "C16_sorted", "D16_old_shape_deadlock"]
 
@@ -18,7 +19,7 @@ QUERY_TIMEOUT_S = 15
 OPMAP = {"get_nowait": "top", "empty": "top", "get": "get", "task_done": "taskdone"}
 
 
-def controlled_run(offsets, fails, threads, choose, max_steps=2000):
+def controlled_run(offsets, fails, threads, choose, max_steps=2000, strategy="queue"):
     """http_queue_strategy on real threads under the deterministic scheduler.
     Returns dict(states, schedule, outcome, stuck, leak)"""
     import laspy.copc as lc
@@ -32,6 +33,7 @@ def controlled_run(offsets, fails, threads, choose, max_steps=2000):
     out = bytearray(size * len(ranges))
     last_off = {}
     saved = (lc.Queue, lc.SimpleQueue, lc.requests_retry_session, lc.HttpFetcherThread.start, lc.HttpFetcherThread.run, lc.HttpFetcherThread.join)
+    saved_pool = lc.ThreadPoolExecutor
     workers = []
 
     class Sess(SC.FakeSession):
@@ -76,12 +78,13 @@ def controlled_run(offsets, fails, threads, choose, max_steps=2000):
         lc.SimpleQueue = mkq(SC.SSimpleQueue)
         lc.requests_retry_session = lambda *a, **k: Sess(bytes(data), fails, S, fail_kind=lambda off: "protocol" if (off // 50) % 2 else "http")
         lc.HttpFetcherThread.start, lc.HttpFetcherThread.run, lc.HttpFetcherThread.join = start, run, join
+        lc.ThreadPoolExecutor = lambda max_workers=None, **k: SC.XPool(S, max_workers)
         source = lc.HttpRangeStream("http://verif.invalid/file.copc.laz")
 
         def main_actor():
             S.adopt(0)
             try:
-                lc.http_queue_strategy(source, ranges, out, threads)
+                (lc.http_queue_strategy if strategy == "queue" else lc.http_thread_executor_strategy)(source, ranges, out, threads)
                 blocks = [out[i * size] for i in range(len(ranges))]
                 result["out"] = "data:" + ",".join(str(offsets[b - 1]) if 0 < b <= len(offsets) else "?" for b in blocks)
             except SC.Abort:
@@ -103,7 +106,11 @@ def controlled_run(offsets, fails, threads, choose, max_steps=2000):
             def show(tid):
                 a = S.actors[tid]
                 if a.state == "finished":
-                    return result.get("out", "?") if tid == 0 else "done"
+                    return result.get("out", "?") if tid == 0 else ("done" if strategy == "queue" else "exited")
+                if strategy == "executor":
+                    if tid == 0:
+                        return {"wait": "wait" + a.detail, "shutdown": "exiting", "joinP": "joining"}.get(a.op, a.op)
+                    return {"take": "idle", "request": f"run@{a.detail}"}.get(a.op, a.op)
                 if tid == 0:
                     return a.op + (a.detail if a.op == "joinT" else "")
                 if a.op == "request":
@@ -136,6 +143,7 @@ def controlled_run(offsets, fails, threads, choose, max_steps=2000):
         return {"states": states, "schedule": schedule, "outcome": result.get("out"), "stuck": stuck, "leak": leak, "keys": keys}
     finally:
         lc.Queue, lc.SimpleQueue, lc.requests_retry_session = saved[0], saved[1], saved[2]
+        lc.ThreadPoolExecutor = saved_pool
         lc.HttpFetcherThread.start, lc.HttpFetcherThread.run, lc.HttpFetcherThread.join = saved[3], saved[4], saved[5]
         threading.excepthook = old_hook
 
@@ -215,6 +223,7 @@ def run(ck):
                "query, threading.enumerate() checked after return. distinct by case")
     ck.regen()
     ck.lean_props("C16", THEOREMS)
+    ck.lean_props("C16X", THEOREMS_X)
     q = ck.tier == "quick"
     lines, meta = [], []
     # ------------------------------------------------------------------ (a) controlled schedules
@@ -243,6 +252,19 @@ def run(ck):
         meta.append((inp, " ".join(r["states"])))
         lines.append(f"ht mu {n} {threads}")
         meta.append((dict(inp, kind="bound"), ("mu", len(r["schedule"]))))
+        # the same configuration under the executor strategy (pool double: FIFO work queue, futures read in order)
+        rx = controlled_run(offsets, fails, threads, policy(ck.rng, kind), strategy="executor")
+        inpx = dict(inp, strategy="executor", schedule=rx["schedule"])
+        ck.case(("c16x", tuple(offsets), threads, tuple(fails), tuple(rx["schedule"])), nontrivial=n > 1 and threads > 1)
+        ck.count("executor_runs")
+        if rx["stuck"]:
+            ck.fail(f"executor strategy: {rx['stuck']} (ranges {offsets}, {threads} workers)", inpx)
+        if rx["leak"]:
+            ck.fail("executor strategy: " + rx["leak"], inpx)
+        if rx["outcome"] != want and not rx["stuck"]:
+            ck.fail(f"executor strategy: outcome {rx['outcome']}, expected {want}", inpx)
+        lines.append(f"ht xrun {','.join(map(str, offsets))} {','.join(map(str, fails)) or '-'} {threads} {','.join(map(str, rx['schedule'])) or '-'}")
+        meta.append((inpx, " ".join(rx["states"])))
         if ri < 3:
             ck.sample(inp)
     # ------------------------------------------------------------------ (a') all schedules of small configurations
